@@ -13,6 +13,33 @@ CHECKS = {
  "C08": ("E-INPUT x E-CHOICE", "exhaustive enumeration of games x parameter tuples x budgets and of all sampling-decision histories (stateless DFS over the two draw sites), real solver vs executable textbook specification under the same decisions",
          "Each (game, method, parameter tuple, budget, draw history) case runs the real solver with its random generator scripted through the sampling hook and the textbook discounted-CFR reference under the same decisions; strategies, draw sites and the distributions handed to the sampler are compared. All histories are enumerated up to 3 (chance-sampled) / 2 (external) iterations; longer budgets use hash-pinned histories (labelled as a finite selection).",
          "Trusted: harness/src/refcfr.rs as the specification; rand/rand_distr internals only for turning a chosen outcome into generator words (a wrong word makes the production sampler return another index, which is reported). Ties/near-zero regret sums are discontinuities: differing runs there are counted, not judged.", "5 C08"),
+ "C02": ("E-INPUT (+ E-SCHED by composition)", "bounded-exhaustive enumeration of games x budgets x thresholds (placed at / just above every bound of the run) x thread counts on the real unsampled solver; oracle = brute-force true regret of the returned profile",
+         "Every valid game of the universe (three payoff fills) and the curated / collision families x budgets 1..50 (200 thorough) x thresholds {0} u {b_t, next(b_t)} at one thread, and thread counts {2,3,5,6,7,16} through a real pool on the families: max(b1,b2) >= true regret, b_i >= 0, an early stop implies true regret < r. The schedule clause is decided by composition with C06 (every task decomposition and every loom schedule returns the one-thread result within 1e-9, the slack used here).",
+         "True regret = brute force over all pure strategies (refmodel); above 5000 pure strategies per player the implementation's evaluator, tied to the brute force by C01, is used and counted. Real-pool runs see whatever schedule the pool produced.", "5 C02"),
+ "C03": ("E-INPUT", "transition-system enumeration: each (game, preset) is one deterministic trace of the real solver; the two envelopes of the statement are evaluated at every listed budget (state) of every trace",
+         "Every valid game of the universe and every member of the adversarial families (deep chains, wide shared infosets, rare chance outcomes, dominated actions, k-ary trees, payoff ranges 2^-80 .. 2^40) x 5 presets x budgets 1..1000 (3000 on families; 30 000 / 300 000 thorough): vanilla per-player bound <= 2DN sqrt(A)/sqrt(T), true regret <= 6DN(sqrt(A)+1/sqrt(T))/sqrt(T), with D, N, A computed by the harness and the true regret by brute force. Thread counts 2 and 5 (real pool) on the families.",
+         "The envelopes are loose on correct code (largest observed ratios are recorded in the evidence), so a slowly diverging solver inside the envelope is not noticed; budgets beyond the listed ones are not explored.", "5 C03"),
+ "C04": ("E-CHOICE (+ a labelled finite selection)", "exhaustive enumeration of ALL sampling-decision histories with their exact probabilities (stateless DFS over the two draw sites of the real solvers): exact tail mass and expectation of the true regret per (game, method, preset, budget); plus hash-pinned long histories labelled as a finite selection",
+         "(a) For every game with one or two decision infosets x {sampled, external} x presets x every budget of a ladder up to the horizon where the history count reaches the cap, every draw history is executed on the real solver with its exact probability: total mass 1, mass of true regret above D N sqrt(A)/sqrt(T) <= 0.05 (0.25 where the envelope is above half the payoff range), expectation <= envelope. (b) Families, collision games and the tiny universe x methods x 5 presets x {100, 3000} iterations x seeds of hash-pinned histories: no run above 3x the envelope, at most 2 % above 1x, collection median regret/D at 3000 below 1 % and below half its value at 100.",
+         "The 'overwhelming probability' clause at budgets in the thousands is not decidable by bounded enumeration; it follows from C08 (every history computes the textbook iterate) + C10 (draws follow the declared distributions) + the published MCCFR theorem, and (a)+(b) are executable consequences. (b) samples histories and says so (exhaustive: false for that part).", "5 C04"),
+ "C06": ("E-SCHED x E-INPUT", "loom: exhaustive exploration (DPOR; preemption-bounded above two concurrent tasks) of every interleaving of the worker tasks of the real solve_full_multi, plus exhaustive enumeration of every task decomposition (task targets 1..12) with the batches sequentialised, plus real-pool runs",
+         "Layer 1a: every valid game x presets x budgets x thresholds x every task target 1..=12, executed by the loom workers with every batch sequentialised: the frontier split, the payoff cache and all state kept between iterations, deterministically. Layer 1b: real rayon pool through the public entry point (threads 2..16) on the families large enough to split. Layer 2: every interleaving (loom) of the tasks of every (small game | collision game, task target) case: unbounded DPOR for two tasks, preemption bound 2/1 (3/2 thorough) for three / four. Oracle: strategies and bounds within 1e-9 of the one-thread run; no panic, error, deadlock.",
+         "The loom build compiles /repo/src/lib.rs against shims: rayon (one loom thread per task; par_iter_mut over exclusive items sequential), portable-atomic AtomicF64 (loom atomic point + f64), loom Mutex with an extra scheduling point inside the critical section; loom 0.7.2 vendored with MAX_THREADS 12. Not modelled: rayon internals, weak-memory effects on values. Runs where the specification reports a tie / near-zero regret sum are counted, not judged.", "5 C06"),
+ "C07": ("E-CHOICE x E-SCHED", "every sampling-decision history enumerated on the one-thread solver (stateless DFS) pins the real multi-threaded solver by draw key; loom then explores every interleaving of its worker tasks, and every task decomposition is enumerated with sequentialised batches",
+         "For every game x {sampled, external} x presets x budgets, every draw history (up to a cap) is enumerated; each pins (1a) the multi-threaded solver under every task target 1..=12 (decomposition mode), (1b) the real pool through the public entry point on large families (hash-pinned), (2) the solver under loom for every schedule of the small universe and the collision games. Oracle: same strategies / bounds within 1e-9, the same draw keys with the same distributions, at most one draw per (infoset, pass), no panic (no two workers in one infoset), error or deadlock.",
+         "Same shims as C06. Which worker arrives first at a shared infoset is explored; the value it draws is pinned by key. History enumerations beyond the cap are cut and counted.", "5 C07"),
+ "C12": ("E-INPUT", "bounded-exhaustive enumeration of alternative presentations ('programs') of every game: every single-site and all-sites application of each transformation, each built, evaluated and solved by the real library and mapped back",
+         "Every valid game x {chance rescaling x2, x1/2 per node and x3 per infoset; insertion of single-outcome chance nodes (unlabelled, fresh label, shared label) and single-action decision nodes of either player (fresh / reused label) above any node or all nodes; removal of all single-child nodes; two injective renamings (one order-reversing); payoffs x {2, 1/2, 3, 2^-70, 2^40}; payoffs + {1, -2.5}; player swap with negation} x (every coarse-grid profile for evaluation + presets x budgets {1,2,5,20} for the deterministic solver): bitwise equality where the same arithmetic is performed, 1e-9 otherwise.",
+         "Parameter sets are the documented presets (a finite non-zero no_positive weight is scale dependent by definition). Solver comparisons in the 1e-9 regime are not judged where the specification reports a tie / near-zero regret sum.", "5 C12"),
+ "C15": ("E-INPUT (CLI)", "bounded-exhaustive enumeration of generated game files (JSON + ten Gambit styles, generated FROM file-level reference models) x option combinations on the real binary; printed strategies re-evaluated by an independent evaluator",
+         "Files of the tiny universe and curated families in JSON and Gambit (constant sums 0/2/-3, interior payoffs, outcomes shared by number, unnamed infosets, reduced / unreduced fractions, reversed action lists, names shared across players) x {full, sampled, external} x 5 discounts x budgets {1,50} x parallel {1,2} x clip {0,0.3}: exit 0, one JSON object, valid behavioural strategies over the file's names, printed utilities / regrets equal the brute-force evaluation of the PRINTED strategies on the file's own payoffs, u1+u2 = constant, regret = max.",
+         "The quick tier runs a rotating fraction of the option product per file. Gambit constructs the generator does not emit (omitted action lists, comments) and duplicate JSON keys are not covered.", "5 C15"),
+ "C16": ("E-INPUT (CLI)", "exhaustive enumeration of the option lattice (discount x max-iters x max-regret x parallel x clip x input route x output destination) per game file on the real binary, compared with the in-process library solve",
+         "Per file (JSON, Gambit constant 0 and 2) the lattice 5 x 2 x 2 x 2 x 3 x 6 routes x 2 destinations with the deterministic method: printed strategies equal the library's (bitwise for JSON at one thread, 1e-9 otherwise); the truncated profile is printed exactly when its reference regret is strictly lower; -o writes the file and nothing to stdout; JSON and Gambit encodings agree; chance-sampling on chance-free games equals the unsampled solver; max-iters 0 runs to the threshold.",
+         "The quick tier runs a rotating sixth of the lattice per file. The external method is random on every game with an opponent decision: only option parsing / output validity (C15).", "5 C16"),
+ "C17": ("E-INPUT (CLI)", "exhaustive enumeration of every single-edit corruption of every generated file at every node (fault enumeration over the input), each through four input routes, on the real binary",
+         "JSON: every required field dropped / renamed / of the wrong type, probability 0 / -1, empty maps, truncation, trailing text, wrong format flag, contract violations. Gambit: 1 / 3 players, payoff just inside (must be accepted) and just outside the constant-sum tolerance, payoff too large for a double, probabilities not summing to one, unnamed-number clash, two same-named infosets of one player, differing action lists, truncation, wrong flag, contract violations. Oracle: non-zero exit, empty stdout, no output file, a fitting diagnostic category on stderr.",
+         "Acceptable diagnostics are sets (auto-detection may answer with its own message). Duplicate JSON keys and unknown extra fields are not corruptions in the sense of the statement.", "5 C17"),
  "C05": ("E-INPUT x E-CHOICE", "bounded-exhaustive enumeration of games x methods x the full parameter alphabet x budgets x thresholds x thread counts, plus every sampling-decision history of the short budgets on the fallback extremes; oracle = well-formedness of what is returned, no panic / error / hang",
          "Every (game, method, parameter tuple incl. +-inf / 0 / |1e3| exponents, presets and None, budget incl. 0, threshold incl. negative / +inf / NaN, thread count incl. 0, > nodes and the usize::MAX/3 overflow boundary) case runs the real solver inside catch_unwind under a watchdog; the returned profile is read through as_named, the dense vector and get_info. For budgets <= 3 (chance-sampled) / 2 (external) every draw history is enumerated, so the arg-max / partial_cmp paths are covered under every history.",
          "Actually spawning usize::MAX/3 OS threads is environment behaviour and not explored. Schedules of the multi-threaded runs here are whatever the pool produces (exhaustive schedule exploration is C06/C07's loom harness).", "5 C05"),
@@ -67,7 +94,7 @@ def main():
         "setup_cmd": "./setup.sh",
         "hooks": {
             "guard": "--cfg erikbrinkman_cfr_verif (rustc cfg; nested cfg(loom) only inside guarded code)",
-            "enable": "RUSTFLAGS='--cfg erikbrinkman_cfr_verif' (set in /verif/harness/.cargo/config.toml; the loom build adds --cfg loom and compiles /repo/src/lib.rs through /verif/harness-loom/cfr/Cargo.toml)",
+            "enable": "RUSTFLAGS='--cfg erikbrinkman_cfr_verif' (set in /verif/harness/.cargo/config.toml; the loom build adds --cfg loom and compiles /repo/src/lib.rs through /verif/harness-loom/cfr/Cargo.toml; the CLI is built from /repo with the same flag into /verif/target/cli)",
             "baseline_off_cmd": "cd /repo && cargo test --workspace --no-fail-fast --offline",
             "source_commits": HOOK_COMMITS,
             "add_only": True,
@@ -75,7 +102,7 @@ def main():
         "engines": [
             {"name": "E-INPUT", "path": "/verif/harness", "serves_properties": sorted(k for k,v in CHECKS.items() if "E-INPUT" in v[0]), "kind_free_text": "bounded-exhaustive input / operation-sequence exploration of the real library against independent reference models (Rust)"},
             {"name": "E-CHOICE", "path": "/verif/harness/src/explore.rs", "serves_properties": sorted(k for k,v in CHECKS.items() if "E-CHOICE" in v[0]), "kind_free_text": "stateless depth-first exploration of every sampling-decision history of the real solvers through a cfg-gated hook at the two draw sites"},
-            {"name": "E-SCHED", "path": "/verif/harness-loom", "serves_properties": sorted(k for k,v in CHECKS.items() if "E-SCHED" in v[0]), "kind_free_text": "loom: every interleaving (DPOR, optional preemption bound) of the worker tasks of the real solve_*_multi functions"},
+            {"name": "E-SCHED", "path": "/verif/harness-loom", "serves_properties": sorted(k for k,v in CHECKS.items() if "E-SCHED" in v[0]), "kind_free_text": "loom: every interleaving (DPOR, optional preemption bound) of the worker tasks of the real solve_*_multi functions, compiled from /repo against rayon / atomic / mutex shims; also runs every task decomposition with sequentialised batches"},
         ],
         "checks": checks,
         "not_applicable": na,
